@@ -308,7 +308,8 @@ def jobs(tier, seed):
     out.append(Job("C13_two_sandboxes", fsrc, [dict(name="noop: two live sandboxes, one destroyed", fn=check_two_sandboxes, unwind=400)], native=False))
     esrc = NOOP + '#include "C13_full_exc.inc"\n'
     out.append(Job("C13_dup_exc", esrc, [dict(name="refused duplicate registration leaves no trace (exceptions)", fn=check_refused_exc, kw=dict(k="k_cb_dup_exc", nvals=3), unwind=400),
-                                         dict(name="registration outside the created window leaves no trace (exceptions)", fn=check_refused_exc, kw=dict(k="k_cb_outside_window_exc", nvals=2), unwind=400)],
+                                         dict(name="registration outside the created window leaves no trace (exceptions)", fn=check_refused_exc, kw=dict(k="k_cb_outside_window_exc", nvals=2), unwind=400),
+                                         dict(name="a refused second create_sandbox leaves registrations releasable (exceptions)", fn=check_refused_exc, kw=dict(k="k_cb_refused_create_exc", nvals=3), unwind=400)],
                    native=False, flags=["-D_GLIBCXX_EXTERN_TEMPLATE=0"]))
     out.append(Job("C13_full_reuse", fsrc, [dict(name="registration after release on a full table", fn=check_full_reuse, unwind=400)], native=False))
     return out
